@@ -147,6 +147,14 @@ static std::string check_abi(const KV &c) {
         uint8_t out[40]; ascon_extract_bytes(&st, out, 0, 40);
         if (memcmp(out, r.b, 40) != 0) return "ascon_permute through the trampoline differs from the reference permutation";
     }
+    if (strcmp(f.sig, "MRQ") == 0) {
+        // the masked permutations: the value behind the shares is the reference permutation, for all 12 starting rounds
+        Bytes mem = tobytes(c, "mem");
+        ref::State r; memcpy(r.b, mem.data() + 100, 40);
+        ref::permute(r, (int)tonum(c, "round"));
+        uint8_t out[40]; adp_s_to_x1(f.shares, out, tramp.data());
+        if (memcmp(out, r.b, 40) != 0) return std::string(f.name) + " (first_round " + tostr(c, "round") + ") differs from the reference permutation";
+    }
     return "";
 }
 
